@@ -9,6 +9,18 @@ import (
 // ---- generator self-check ---------------------------------------------------------------------------
 
 func validateTmpl(t *Tmpl) error {
+	if t.Driver {
+		if strings.ContainsAny(t.SQL, "?@") {
+			return fmt.Errorf("driver-named template %q contains '?' or '@'", t.SQL)
+		}
+		if got := ColonNames(t.SQL, false); strings.Join(got, ",") != strings.Join(t.Refs, ",") {
+			return fmt.Errorf("driver-named template %q: text has %v, description has %v", t.SQL, got, t.Refs)
+		}
+		if len(t.ArgOrder) != len(t.Binds) {
+			return fmt.Errorf("driver-named template %q: %d arguments for %d names", t.SQL, len(t.ArgOrder), len(t.Binds))
+		}
+		return nil
+	}
 	if t.Named() {
 		if strings.Contains(t.SQL, "?") {
 			return fmt.Errorf("named template %q contains '?'", t.SQL)
@@ -136,4 +148,65 @@ func Leaked(sql string, tokens []string) []string {
 		}
 	}
 	return out
+}
+
+// ColonNames lists the driver-style named placeholders (":name") of a statement
+// text in order of appearance; distinct = every name once.
+func ColonNames(sql string, distinct bool) []string {
+	var out []string
+	seen := map[string]bool{}
+	for i := 0; i+1 < len(sql); i++ {
+		if sql[i] != ':' {
+			continue
+		}
+		j := i + 1
+		for j < len(sql) && (sql[j] == '_' || sql[j] >= 'a' && sql[j] <= 'z' || sql[j] >= 'A' && sql[j] <= 'Z' || sql[j] >= '0' && sql[j] <= '9') {
+			j++
+		}
+		if j == i+1 {
+			continue
+		}
+		name := sql[i+1 : j]
+		if !distinct || !seen[name] {
+			out = append(out, name)
+		}
+		seen[name] = true
+		i = j - 1
+	}
+	return out
+}
+
+// Positional counts the values that are not bound under a name, and lists the names of the others.
+func Positional(vars []interface{}) (int, []string) {
+	n := 0
+	var names []string
+	for _, v := range vars {
+		if l, ok := v.(NamedLeaf); ok {
+			names = append(names, l.Name)
+		} else {
+			n++
+		}
+	}
+	return n, names
+}
+
+// NamedMatch: every value bound under a name has its ":name" placeholder in the text and vice versa.
+func NamedMatch(sql string, names []string) bool {
+	want := map[string]bool{}
+	for _, n := range names {
+		if want[n] {
+			return false // the same name bound twice
+		}
+		want[n] = true
+	}
+	got := ColonNames(sql, true)
+	if len(got) != len(want) {
+		return false
+	}
+	for _, n := range got {
+		if !want[n] {
+			return false
+		}
+	}
+	return true
 }
